@@ -19,7 +19,10 @@ EXEC_LOCS = ['QUERY', 'MUTATION', 'SUBSCRIPTION', 'FIELD', 'FRAGMENT_DEFINITION'
 ADVERSARIAL = ['', ' ', 'plain text', ' leading', 'trailing ', 'two\nlines', '\nstarts with newline', 'ends with newline\n', '  indented\n  both', ' a\n b',
                'quote " inside', 'triple """ quote', 'back\\slash', 'ends with backslash\\', 'ends with quote"', 'tab\there', 'cr\rhere', 'crlf\r\nhere',
                'uni' + chr(0x2028) + 'sep', 'nel\x85x', 'vt\x0bx', 'ff\x0cx', 'fs\x1cx', 'bom\ufeffx', 'emoji \U0001f600', '\u00e9', 'x' * 75, 'a\n\n\nb', '\t', 'a\n  b\n    c',
-               'Heading\n\n  indented body\n  more', '  Hello world\n  second line', '\tx y\n\tz', '\\"""', '#not a comment', 'nul\x00byte', 'para' + chr(0x2029) + 'x', '  ', '\n', 'a\n']
+               'Heading\n\n  indented body\n  more', '  Hello world\n  second line', '\tx y\n\tz', '\\"""', '#not a comment', 'nul\x00byte', 'para' + chr(0x2029) + 'x', '  ', '\n', 'a\n',
+               # lines that start with / consist of white space which is NOT indentation for a block string (only space and tab are)
+               '\xa0first\n\xa0second', '\u3000a\n\u3000b\n\u3000c', 'Title\n\xa0', '\x1fx\nbody', '\xa0\nbody\n\u2003', '\u2003 x\n\u2003 y', 'a\n\xa0b\n\xa0c',
+               '\x0bone\n\x0btwo', '\x0c\nx']
 
 
 def ref_str(r):
@@ -104,7 +107,7 @@ class SchemaGen:
             return '[' + ', '.join(self.literal(m, ref[1], depth + 1) for _ in range(r.randint(0, 2))) + ']'
         name = ref[1]
         if name == 'Int':
-            return r.choice(['0', '1', '-5', '2147483647'])
+            return r.choice(['0', '1', '-5', '2147483647', '-2147483648', '-2147483647'])
         if name == 'Float':
             return r.choice(['0.5', '1', '-1.25', '1e10', '3.0'])
         if name == 'String':
